@@ -498,6 +498,14 @@ def check(prop, mod, tier, seed, t0):
             if info.get("nontrivial"):
                 nontrivial += 1
     listed, new = classify(all_viol, known)
+    if os.environ.get("VERIF_DUMP_SIGS"):
+        # maintenance aid: every unlisted signature of this run with a count and one example (never read by a check)
+        agg = {}
+        for v in new:
+            a = agg.setdefault(v.get("signature"), dict(count=0, example=v))
+            a["count"] += 1
+        with open(os.environ["VERIF_DUMP_SIGS"], "w") as f:
+            json.dump(agg, f, indent=1, default=str)
 
     # known findings: every `known` entry must also be confirmed by its own witness replay
     known_lines = []
